@@ -490,6 +490,14 @@ func C14(rc *vk.Rec) {
 	}
 	phase := "c14"
 	concs := []int{0, 1, 2, 4, 16}
+	// GOMAXPROCS is fixed per monitor child (the 16 shards cover 1, 2, 4 and 16
+	// four times each). It used to be changed before every case, but
+	// runtime.GOMAXPROCS stops the world, and in the CGO_ENABLED=0 child whose
+	// only verdict is the runtime's deadlock detector one such call in ~100 000
+	// was itself reported as "all goroutines are asleep" (a dump with the main
+	// goroutine inside runtime.GOMAXPROCS and nothing else: no wuffs frame).
+	procs := []int{1, 2, 4, 16}[rc.Shard%4]
+	runtime.GOMAXPROCS(procs)
 	sigs := map[uint64]bool{}
 	var idx int64
 	for fi := 0; fi < nfiles; fi++ {
@@ -525,8 +533,7 @@ func C14(rc *vk.Rec) {
 				if raceMode && conc <= 1 {
 					continue
 				}
-				procs := []int{1, 2, 4, 16}[hr.Intn(4)]
-				runtime.GOMAXPROCS(procs)
+				_ = hr.Intn(4) // (keeps the per-case PRNG stream of earlier evidence)
 				rc.Mark(phase, idx)
 				if rc.Only >= 0 {
 					fmt.Fprintf(os.Stderr, "REPLAY case %d conc=%d gomaxprocs=%d file[%s] chunks=%d history=%v\n", idx, conc, procs, f.desc, f.nchunks, ops)
